@@ -44,6 +44,51 @@ def gen(ctx):
     big = {"form": "single", "frames": [{"fields": [("size", "5000")], "bin": bytes(range(256)) * 20, "binpos": 1}], "error": None, "partial": None}
     e = g.enc_response(big)
     add_stream([big, big], [0, 1, 11, 12, 26, 27, 4096, 4097, len(e) - 4, len(e) - 3, len(e) - 1, len(e), len(e) + 1, 2 * len(e) - 1, 2 * len(e)])
+    # the last read before the end fills the receive buffer exactly (4096 and its doublings)
+    for cap in (4096, 8192):
+        one = {"form": "single", "frames": [{"fields": [("k", "v" * (cap - 3 - 1 - 3))], "bin": None, "binpos": None}], "error": None, "partial": None}
+        small = {"form": "single", "frames": [{"fields": [("a", "b")], "bin": None, "binpos": None}], "error": None, "partial": None}
+        assert len(g.enc_response(one)) == cap
+        for rs, cuts in (([one], [cap]), ([one, small], [cap, cap + 3, cap + 8]), ([small, one], [cap, 8 + cap])):
+            encs = [g.enc_response(r) for r in rs]
+            st = b"".join(encs)
+            for cut in cuts:
+                bounds = [0]
+                for e_ in encs:
+                    bounds.append(bounds[-1] + len(e_))
+                done = max(i for i, bnd in enumerate(bounds) if bnd <= cut)
+                exp = [g.show_response(r) for r in rs[:done]] + ["eof" if cut == bounds[done] else "ueof"]
+                t = st[:cut]
+                for seg in ([t], [t[:cap], t[cap:]], [t[:100], t[100:]], [t[i:i + 4096] for i in range(0, len(t), 4096)]):
+                    for fl in "ab":
+                        cases.append(g.case_line("recv", fl, 0, "eof", [c for c in seg if c]))
+                        expect.append(exp)
+    # an interrupted receive (one read fails with a transient error, e.g. a timeout layer under the connection) keeps what it
+    # had consumed: the end of the stream after it is still unclean
+    def add_interrupted(rs, extra_tail):
+        encs = [g.enc_response(r) for r in rs]
+        st = b"".join(encs) + extra_tail
+        shows = [g.show_response(r) for r in rs]
+        for k in sorted(set([1, len(st) // 2, len(st) - 1, len(st)] + [rng.randrange(1, len(st) + 1) for _ in range(4)])):
+            if not (0 < k <= len(st)):
+                continue
+            bounds = [0]
+            for e_ in encs:
+                bounds.append(bounds[-1] + len(e_))
+            # outcomes: responses completed before the interruption, the transient error, the rest, then the end
+            done_before = max(i for i, bnd in enumerate(bounds) if bnd <= k)
+            end = "eof" if extra_tail == b"" else "ueof"
+            exp = shows[:done_before] + ["io"] + shows[done_before:] + [end]
+            for fl in "ab":
+                cases.append(" ".join(["recv", fl, "0", "eof", hexs(st[:k]), "!"] + ([hexs(st[k:])] if st[k:] else [])))
+                expect.append(exp)
+    from vlib import hexs
+    smallr = {"form": "single", "frames": [{"fields": [("foo", "bar")], "bin": None, "binpos": None}], "error": None, "partial": None}
+    listr = {"form": "list", "frames": [{"fields": [("foo", "bar")], "bin": None, "binpos": None}] * 2, "error": None, "partial": None}
+    binr = {"form": "single", "frames": [{"fields": [], "bin": b"abc", "binpos": 0}], "error": None, "partial": None}
+    for rs in ([smallr], [listr], [binr], [smallr, listr]):
+        for tail_ in (b"", b"foo: bar\n", b"foo: bar\nlist_OK\n", b"binary: 3\nabc\n", b"x"):
+            add_interrupted(rs, tail_)
     # greeting: every proper prefix of a valid greeting line is an unexpected EOF
     for v in (b"0.23.5", b"x", "0.21.11 ä".encode()):
         gr = b"OK MPD " + v + b"\n"
